@@ -289,6 +289,35 @@ macro_rules! wide_typed {
         for (name, got, exp) in checks {
             ensure!(same(got, exp), "[{}; 2] frame {} = {:?}: {} with gains {:?} yields {:?}, the frame operation gives {:?}", k.name(), i, f, name, c.gains, got, exp);
         }
+        // identities that do not go through the library's own frame operations (integer formats, amplitudes small enough
+        // to be exact in every float companion): offset 0 leaves the sample alone; gain 1 leaves it alone; gain 0 gives
+        // the amplitude-0 value; gain 0.5 halves an even amplitude exactly
+        if let Kind::Int { .. } = k {
+            for ch in 0..2 {
+                let raw = match f[ch].to_val() {
+                    Val::I(r) => r,
+                    _ => unreachable!(),
+                };
+                let amp = raw - k.eq_raw();
+                let as_raw = |x: S| match x.to_val() {
+                    Val::I(r) => r,
+                    _ => unreachable!(),
+                };
+                ensure!(as_raw(o[i][ch]) == raw && as_raw(p[i][ch]) == raw && as_raw(d[i][ch]) == raw, "[{}; 2] frame {} channel {}: offsetting {} by zero (offset_amp / offset_amp_per_channel / add_amp of equilibrium) yields {} / {} / {}", k.name(), i, ch, raw, as_raw(o[i][ch]), as_raw(p[i][ch]), as_raw(d[i][ch]));
+                if amp.abs() < (1 << 22) {
+                    let g = c.gains[ch];
+                    let exp = if g == 1.0 { Some(raw) } else if g == 0.0 { Some(k.eq_raw()) } else if g == 0.5 && amp % 2 == 0 { Some(k.eq_raw() + amp / 2) } else { None };
+                    if let Some(e) = exp {
+                        ensure!(as_raw(b[i][ch]) == e && as_raw(m[i][ch]) == e, "[{}; 2] frame {} channel {}: amplitude {} scaled by {} (scale_amp_per_channel / mul_amp) yields raw {} / {}, expected raw {} (amplitude {})", k.name(), i, ch, amp, g, as_raw(b[i][ch]), as_raw(m[i][ch]), e, e - k.eq_raw());
+                    }
+                    let g0v = c.gains[0];
+                    let exp0 = if g0v == 1.0 { Some(raw) } else if g0v == 0.0 { Some(k.eq_raw()) } else if g0v == 0.5 && amp % 2 == 0 { Some(k.eq_raw() + amp / 2) } else { None };
+                    if let Some(e) = exp0 {
+                        ensure!(as_raw(a[i][ch]) == e, "[{}; 2] frame {} channel {}: amplitude {} under scale_amp({}) yields raw {}, expected raw {}", k.name(), i, ch, amp, g0v, as_raw(a[i][ch]), e);
+                    }
+                }
+            }
+        }
     }
     Ok(())
         })();
@@ -320,6 +349,15 @@ fn wide_cases(seed: u64) -> Vec<WideCase> {
         for _ in 0..60 {
             let span = (k.max_raw() - k.min_raw() + 1) as u128;
             vals.push(k.min_raw() + (((xs() as u128) << 64 | xs() as u128) % span) as i128);
+        }
+        // small amplitudes on both sides of equilibrium (exact in every float companion)
+        for a in [1i128, 2, 3, 50, 100, 101, 1000, 4094, 65_536, 1_000_000] {
+            for sgn in [-1i128, 1] {
+                let r = k.eq_raw() + sgn * a;
+                if k.in_range_raw(r) {
+                    vals.push(r);
+                }
+            }
         }
         // odd values just above a power of two: not representable in a narrower float
         for b in 8..k.bits() - 1 {
